@@ -96,6 +96,16 @@ var docFamilies = []docFamily{
 	// reallocation once a slice holds 4096)
 	{"very-long-flat-array", func(n int) []byte { return []byte("[" + strings.Repeat("0,", 25*n) + "0]") }, wide},
 	{"very-wide-object", func(n int) []byte { return []byte(keysObj(12*n, "")) }, wide},
+	{"many-nulls", func(n int) []byte { return []byte("[" + strings.Repeat("null,", 8*n) + "null]") }, wide},
+	{"many-null-members", func(n int) []byte {
+		var sb strings.Builder
+		sb.WriteString("{")
+		for i := 0; i < 4*n; i++ {
+			sb.WriteString(`"k` + strconv.Itoa(i) + `":null,`)
+		}
+		sb.WriteString(`"z":null}`)
+		return []byte(sb.String())
+	}, wide},
 	{"flat-strings", func(n int) []byte { return []byte("[" + strings.Repeat(`"abcdefgh",`, 8*n) + `""]`) }, wide},
 	{"one-long-escaped-string", func(n int) []byte { return []byte(`["` + strings.Repeat(`ab\n`, 10*n) + `"]`) }, wide},
 	{"one-long-unicode-escaped-string", func(n int) []byte { return []byte(`["` + strings.Repeat(`\u4e2d\u6587`, 4*n) + `"]`) }, wide},
@@ -152,6 +162,11 @@ func (r reentrantStringHandler) handle(d []byte) (int, error) {
 	case rjson.NumberType:
 		_, p, err := rjson.ReadFloat64(d)
 		return p, err
+	case rjson.NullType:
+		// a nullable string field: the reader's error is built and discarded on this success path
+		// (seeded change C20r7-m1: an error message that formats the rest of the input)
+		var s string
+		return rjson.DecodeString(d, &s, nil)
 	}
 	return rjson.SkipValue(d, r.buf)
 }
